@@ -12,6 +12,9 @@ import Proofs.ZoneFileRdataA
 import Proofs.ZoneFileGenerate
 import Proofs.ZoneFileLossless
 import Proofs.ZoneFileCodecLink
+import Proofs.ZoneFileGenLine
+import Proofs.ZoneFileTypeTok
+import Proofs.ZoneFileCodecA
 /-!
 # C09 — zones survive write-then-read as text; equivalent zone-file spellings agree
 
@@ -583,6 +586,168 @@ example :
       apply recOK_rdata
       exact rdataReads_TXT _ [104, 105] [] _ _ _ _ _ (typeGap_sep st 16).1 (typeGap_sep st 16).2
         (by intro t ht; cases ht) (by intro s hs; simp at hs; subst hs; exact ⟨by decide, by decide⟩)
+
+/-- A without side conditions: for every address `a.b.c.d` the dotted quad the writer prints is read back to it -/
+theorem rdata_codec_A_all (b : List Nat) (o1 o2 o3 o4 : Nat) (h1 : o1 < 256) (h2 : o2 < 256) (h3 : o3 < 256) (h4 : o4 < 256)
+    (kc : Option (List Nat)) (co : Option Name) (rel : Bool) (zo : Option Name) (gfix : Bool)
+    (hb : Blank b) (hbn : b ≠ []) (hkc : ∀ t ∈ kc, 10 ∉ t) :
+    RdataReads tA (b ++ (inetNtoa [o1, o2, o3, o4] ++ lineEnd kc)) (.a [o1, o2, o3, o4]) kc co rel zo gfix :=
+  rdataReads_A_all b o1 o2 o3 o4 h1 h2 h3 h4 kc co rel zo gfix hb hbn hkc
+
+/-- the type column: every mnemonic of the working tree's table (the meta-type `ANY`, whose mnemonic is also a class
+mnemonic, excepted) and, under `want_generic`, `TYPEn` for every 16-bit type meet what `read_write_lossless` asks of the
+type token (`TypeTokOK`: it is a token, reads back as the type, and is neither a TTL nor a class) -/
+theorem type_column_ok (st : Style) :
+    (st.wantGeneric = false → ∀ p ∈ ConstsC09.typeText, p.1 ≠ 255 → TypeTokOK st p.1) ∧
+    (st.wantGeneric = true → ∀ n, n ≤ 65535 → TypeTokOK st n) :=
+  ⟨fun hg p hp hany => typeTokOK_plain st hg p hp hany, fun hg n h => typeTokOK_generic st hg n h⟩
+
+/-- the `$ORIGIN` line: the text of any well-formed absolute-or-relative origin name is a token that reads back as
+the name (what `read_write_lossless` asks when `want_origin` is on) -/
+theorem origin_text_ok (zo : Name) (hwf : WfName zo) (ho : OctetsOk zo) :
+    identOK (toText zo) = true ∧ toText zo ≠ [] ∧ fromText (toText zo) none = .ok zo :=
+  ⟨(toText_token zo hwf ho).1, (toText_token zo hwf ho).2.1, C01.fromText_toText zo hwf ho⟩
+
+/-! ### `$GENERATE` at character level -/
+
+/-- `_format_index`, **width** (base `d`): a non-negative index is printed in decimal, left-filled with `0` up to the
+width; the text still denotes the index and is at least `width` long -/
+theorem generate_format_width (n w : Nat) :
+    formatIndex (n : Int) 100 w = List.replicate (w - (natToDec n).length) 48 ++ natToDec n ∧
+    digitsVal (formatIndex (n : Int) 100 w) 0 = n ∧ w ≤ (formatIndex (n : Int) 100 w).length :=
+  ⟨formatIndex_dec n w, (formatIndex_dec_value n w).1, (formatIndex_dec_value n w).2.1⟩
+
+/-- `_format_index` of a negative index (counter below a `-offset`): the sign stays in front of the zero fill -/
+theorem generate_format_negative (n w : Nat) :
+    formatIndex (-((n : Int) + 1)) 100 w =
+      45 :: (List.replicate (w - ((natToDec (n + 1)).length + 1)) 48 ++ natToDec (n + 1)) :=
+  formatIndex_dec_neg n w
+
+/-- the range token: `start-stop` and `start-stop/step` -/
+theorem generate_range_text (a b s : Nat) (h : a ≤ b) (hs : 1 ≤ s) :
+    grangeFromText (natToDec a ++ 45 :: natToDec b) = .ok (a, b, 1) ∧
+    grangeFromText (natToDec a ++ 45 :: (natToDec b ++ 47 :: natToDec s)) = .ok (a, b, s) :=
+  ⟨grange_text a b h, grange_text_step a b s h hs⟩
+
+/-- `_parse_modify` + `str.replace` on a side `pre$post` (one `$`, no modifier): the `$` becomes the decimal index -/
+theorem generate_subst_plain (pre post : List Nat) (i : Nat) (hpre : 36 ∉ pre) (hpost : 36 ∉ post)
+    (hbrace : post.head? ≠ some 123) :
+    parseModify (pre ++ 36 :: post) = some {} ∧
+    substIndex (pre ++ 36 :: post) {} i = pre ++ (natToDec i ++ post) :=
+  substIndex_plain pre post i hpre hpost hbrace
+
+/-- `_parse_modify` + `str.replace` on a side `pre${[-]offset,width,base}post`: **offset**, **width** and **base** are
+those of the group, and the group becomes `_format_index(i ± offset, base, width)` -/
+theorem generate_subst_modifier (pre post : List Nat) (neg : Bool) (o w b : Nat) (i : Nat)
+    (hpre : 36 ∉ pre) (hpost : 36 ∉ post) (hb : [100, 111, 120, 88, 110, 78].contains b = true) :
+    parseModify (pre ++ 36 :: (modText neg o w b ++ post)) =
+      some { mod := modText neg o w b, sign := if neg then 45 else 43, offset := o, width := w, base := b } ∧
+    substIndex (pre ++ 36 :: (modText neg o w b ++ post))
+        { mod := modText neg o w b, sign := if neg then 45 else 43, offset := o, width := w, base := b } i =
+      pre ++ (formatIndex (if neg then (i : Int) - o else (i : Int) + o) b w ++ post) :=
+  substIndex_modifier pre post neg o w b i hpre hpost hb
+
+/-- the expansion of `$GENERATE a-b/s pre₁$post₁ … pre₂$post₂`: for every index the owner `pre₁ i post₁` and the RDATA
+text `pre₂ i post₂` -/
+theorem generate_expansion_plain (a b s : Nat) (pre1 post1 pre2 post2 : List Nat)
+    (h1 : 36 ∉ pre1) (h2 : 36 ∉ post1) (h3 : post1.head? ≠ some 123)
+    (h4 : 36 ∉ pre2) (h5 : 36 ∉ post2) (h6 : post2.head? ≠ some 123) :
+    generateExpansion a b s (pre1 ++ 36 :: post1) (pre2 ++ 36 :: post2) {} {} =
+      (((List.range (b + 1 - a)).filter (fun k => k % s = 0)).map fun k =>
+        (pre1 ++ (natToDec (a + k) ++ post1), pre2 ++ (natToDec (a + k) ++ post2))) := by
+  unfold generateExpansion
+  apply List.map_congr_left
+  intro k _
+  rw [(substIndex_plain pre1 post1 (a + k) h1 h2 h3).2, (substIndex_plain pre2 post2 (a + k) h4 h5 h6).2]
+
+/-- **"$GENERATE versus its expansion", as text**: the line `$GENERATE range lhs ttl class type rhs⏎` and the file of
+the explicit record lines of its indices (same records, TTL written out, index order) take the reader — from the same
+state, with the same text after them — to the same zone and the same parser state, so the rest of the file is read
+alike.  (Per index: the owner resolves and the RDATA text reads, both from a fresh tokenizer as `_generate_line` does and
+in the line as `_rr_line` does — the interfaces of `generate_eq_expansion`.) -/
+theorem generate_eq_expansion_text (f : Nat) (r : PState) (z : ZoneMap) (zo : Name)
+    (rangeT lhs ttlT clsT tyT rhs rest : List Nat) (a b st ttl ty : Nat) (lm rm : Modify)
+    (e : List Nat × List Nat → Entry) (nOf : List Nat × List Nat → Name) (ls : List GLine)
+    (hco : r.currentOrigin = some zo) (hzo : r.zoneOrigin = some zo)
+    (k1 : TokOK rangeT) (k2 : TokOK lhs) (k3 : TokOK ttlT) (k4 : TokOK clsT) (k5 : TokOK tyT) (k6 : TokOK rhs)
+    (hrange : grangeFromText rangeT = .ok (a, b, st)) (httl : ttlOf ttlT = some ttl)
+    (hcls : classFromText clsT = some 1) (hty : typeFromText tyT = some ty)
+    (hlm : parseModify lhs = some lm) (hrm : parseModify rhs = some rm)
+    (hitems : ∀ item ∈ generateExpansion a b st lhs rhs lm rm, ∀ ln,
+      genItem ttl ty item { r with tok := after 0 false (10 :: rest), lastTTL := ttl, lastTTLKnown := true, lastName := ln } =
+        .ok (some (e item), { r with tok := after 0 false (10 :: rest), lastTTL := ttl, lastTTLKnown := true,
+                                     lastName := some (nOf item) }))
+    (hls : ls.map GLine.entry = (generateExpansion a b st lhs rhs lm rm).map e) (hne : ls ≠ [])
+    (hok : LinesOK zo r.relativize r.gfix r.lastName none ls) (hu : UniformLines ttl ls)
+    (hlast : lastN r.lastName ls = lastNameAfter nOf r.lastName (generateExpansion a b st lhs rhs lm rm)) :
+    readLoop (f + 2)
+        { r with tok := after 0 false (s2l "$GENERATE" ++ genHeaderText rangeT lhs ttlT clsT tyT rhs (10 :: rest)) } z =
+    readLoop (f + ls.length) { r with tok := after 0 false (glinesText ls ++ rest) } z :=
+  generate_eq_lines f r z zo rangeT lhs ttlT clsT tyT rhs rest a b st ttl ty lm rm e nOf ls hco hzo k1 k2 k3 k4 k5 k6
+    hrange httl hcls hty hlm hrm hitems hls hne hok hu hlast
+
+/-- non-vacuity of `generate_eq_expansion_text`: `$GENERATE 1-2 h$ 300 IN A 10.0.0.$` against `h1 300 IN A 10.0.0.1`,
+`h2 300 IN A 10.0.0.2` in the relativized zone `ex.` -/
+example (r0 : PState) (rest : List Nat) (hrel : r0.relativize = true) (hg : r0.gfix = true)
+    (hco : r0.currentOrigin = some [[101, 120], []]) (hzo : r0.zoneOrigin = some [[101, 120], []]) :
+    let zo : Name := [[101, 120], []]
+    let lhs := s2l "h$"
+    let rhs := s2l "10.0.0.$"
+    let mk : Nat → GLine := fun i =>
+      { owner := some (s2l "h" ++ natToDec i), b0 := [32], hdr := .tc (s2l "300") [32] (s2l "IN") [32] (s2l "A"),
+        rdText := 32 :: (s2l "10.0.0." ++ natToDec i ++ [10]), n := [s2l "h" ++ natToDec i] ++ zo,
+        m := [s2l "h" ++ natToDec i], ttl := 300, ty := 1, rd := .a [10, 0, 0, i], comment := none }
+    let ls := [mk 1, mk 2]
+    let e : List Nat × List Nat → Entry := fun it => ⟨[it.1], 300, 1, ⟨.a [10, 0, 0, digitsVal (it.1.drop 1) 0], none⟩⟩
+    let nOf : List Nat × List Nat → Name := fun it => [it.1] ++ zo
+    grangeFromText (s2l "1-2") = .ok (1, 2, 1) ∧ parseModify lhs = some {} ∧ parseModify rhs = some {} ∧
+    generateExpansion 1 2 1 lhs rhs {} {} = [(s2l "h1", s2l "10.0.0.1"), (s2l "h2", s2l "10.0.0.2")] ∧
+    (∀ item ∈ generateExpansion 1 2 1 lhs rhs {} {}, ∀ ln,
+      genItem 300 1 item { r0 with tok := after 0 false (10 :: rest), lastTTL := 300, lastTTLKnown := true, lastName := ln } =
+        .ok (some (e item), { r0 with tok := after 0 false (10 :: rest), lastTTL := 300, lastTTLKnown := true,
+                                      lastName := some (nOf item) })) ∧
+    ls.map GLine.entry = (generateExpansion 1 2 1 lhs rhs {} {}).map e ∧
+    LinesOK zo r0.relativize r0.gfix r0.lastName none ls ∧ UniformLines 300 ls ∧
+    lastN r0.lastName ls = lastNameAfter nOf r0.lastName (generateExpansion 1 2 1 lhs rhs {} {}) := by
+  intro zo lhs rhs mk ls e nOf
+  have hexp : generateExpansion 1 2 1 lhs rhs {} {} = [(s2l "h1", s2l "10.0.0.1"), (s2l "h2", s2l "10.0.0.2")] := by rfl
+  refine ⟨by rfl, by decide, by decide, hexp, ?_, ?_, ?_, ?_, ?_⟩
+  · rw [hexp]
+    intro item hi ln
+    simp only [List.mem_cons, List.mem_nil_iff, or_false] at hi
+    rcases hi with rfl | rfl
+    · exact genItem_record _ (s2l "h1") (s2l "10.0.0.1") zo ([s2l "h1"] ++ zo) [s2l "h1"] 300 1 (.a [10, 0, 0, 1]) none _
+        hco hzo rfl rfl (by simp [ownerInZone, hrel]; rfl) (by simp only [hrel, hg]; rfl)
+    · exact genItem_record _ (s2l "h2") (s2l "10.0.0.2") zo ([s2l "h2"] ++ zo) [s2l "h2"] 300 1 (.a [10, 0, 0, 2]) none _
+        hco hzo rfl rfl (by simp [ownerInZone, hrel]; rfl) (by simp only [hrel, hg]; rfl)
+  · rw [hexp]; rfl
+  · have good : ∀ i, i = 1 ∨ i = 2 → (mk i).Good zo r0.relativize r0.gfix := by
+      intro i hi
+      rcases hi with rfl | rfl
+      · refine ⟨⟨sp_blank, by simp⟩, ?_, rfl, by simp [ownerInZone, hrel]; rfl, ?_, ?_⟩
+        · intro ow how
+          simp only [mk, Option.some.injEq] at how
+          subst how
+          exact ⟨by decide, by decide, by decide, rfl⟩
+        · exact ⟨⟨by decide, by decide⟩, ⟨sp_blank, by simp⟩, ⟨by decide, by decide⟩, ⟨sp_blank, by simp⟩,
+            ⟨by decide, by decide⟩, by decide, by decide, by decide⟩
+        · exact rdataReads_A_gen [32] (s2l "10.0.0.1") [10, 0, 0, 1] none _ _ _ _ sp_blank (by simp) (by simp) (by decide)
+            (by decide) (by decide) rfl rfl
+      · refine ⟨⟨sp_blank, by simp⟩, ?_, rfl, by simp [ownerInZone, hrel]; rfl, ?_, ?_⟩
+        · intro ow how
+          simp only [mk, Option.some.injEq] at how
+          subst how
+          exact ⟨by decide, by decide, by decide, rfl⟩
+        · exact ⟨⟨by decide, by decide⟩, ⟨sp_blank, by simp⟩, ⟨by decide, by decide⟩, ⟨sp_blank, by simp⟩,
+            ⟨by decide, by decide⟩, by decide, by decide, by decide⟩
+        · exact rdataReads_A_gen [32] (s2l "10.0.0.2") [10, 0, 0, 2] none _ _ _ _ sp_blank (by simp) (by simp) (by decide)
+            (by decide) (by decide) rfl rfl
+    exact ⟨good 1 (Or.inl rfl), by intro h; simp [mk] at h, by intro h; simp [mk, Hdr.hasTTL] at h,
+      good 2 (Or.inr rfl), by intro h; simp [mk] at h, by intro h; simp [mk, Hdr.hasTTL] at h, trivial⟩
+  · intro l hl
+    simp only [ls, List.mem_cons, List.mem_nil_iff, or_false] at hl
+    rcases hl with rfl | rfl <;> exact ⟨rfl, rfl, by decide⟩
+  · rw [hexp]; rfl
 
 /-! ### D08 — `want_generic` (recorded finding; DESIGN §6)
 
